@@ -12,6 +12,7 @@
 //!   {"op":"call","mode":"net"|"probe","call":"send"|"forward","node","inst","slot","slice",
 //!    "shred","from","dests":[..]}                      one API call and the network sends it made
 //!   {"op":"endcfg"}
+//!   {"op":"note", ..}                                  history of an instance (ignored by the spec)
 //!   {"op":"panic","what","node","inst","msg"}
 
 use std::collections::HashMap;
@@ -23,7 +24,9 @@ use std::sync::{Arc, Mutex};
 use alpenglow::consensus::{EpochInfo, ValidatorEpochInfo};
 use alpenglow::crypto::{aggsig, signature};
 use alpenglow::disseminator::rotor::sampling_strategy::PartitionSampler;
-use alpenglow::disseminator::rotor::{FaitAccompli1Sampler, IidQuorumSampler, StakeWeightedSampler};
+use alpenglow::disseminator::rotor::{
+    FaitAccompli1Sampler, IidQuorumSampler, SamplingStrategy, StakeWeightedSampler,
+};
 use alpenglow::disseminator::{Disseminator, Rotor, TrivialDisseminator, Turbine};
 use alpenglow::network::{Network, localhost_ip_sockaddr};
 use alpenglow::shredder::{Shred, TOTAL_SHREDS, ValidatedShred};
@@ -191,6 +194,93 @@ impl Epoch {
             "turbine" => Dis::Turbine(Turbine::new(n2, vei).with_fanout(fanout)),
             _ => Dis::Trivial(TrivialDisseminator::new(validators, n2)),
         }));
+        match r {
+            Ok(dis) => Ok(Inst { net, dis }),
+            Err(p) => Err(panic_msg(&p)),
+        }
+    }
+}
+
+impl Epoch {
+    /// The validator set with a different stake distribution (the least-staked validator dominates):
+    /// what a sampler looked like before a reconfiguration.
+    fn decoy_validators(&self) -> Vec<ValidatorInfo> {
+        let total: u64 = self.stakes.iter().sum();
+        let least = (0..self.n)
+            .filter(|i| self.stakes[*i] > 0)
+            .min_by_key(|i| (self.stakes[*i], *i))
+            .unwrap_or(0);
+        let mut v = self.validators.clone();
+        v[least].stake = Stake::new(total.max(1) * 1000);
+        v
+    }
+
+    /// An instance with a HISTORY: built with an outdated configuration (Rotor: a sampler over
+    /// outdated stakes, Turbine: another fanout), used to route the shreds `warm` (which fills its
+    /// caches), and then switched - `Rotor::with_sampler` / `Turbine::with_fanout` - to the
+    /// configuration all other copies are constructed with.  From then on it is just another
+    /// instance of validator `v` and has to agree with everybody else.
+    fn construct_switched(&self, kind: &str, fanout: usize, v: usize, warm: &[&Shred]) -> Result<Inst, String> {
+        let net = RecNet::new();
+        let n2 = net.clone();
+        let vei = Arc::new(ValidatorEpochInfo::new(
+            ValidatorIndex::new(v as u64),
+            EpochInfo::new(self.validators.clone()),
+        ));
+        let validators = self.validators.clone();
+        let decoy = self.decoy_validators();
+        let r = catch_unwind(AssertUnwindSafe(move || {
+            let warm_up = |d: &Dis| {
+                futures::executor::block_on(async {
+                    for s in warm {
+                        match d {
+                            Dis::Rotor(x) => {
+                                let _ = x.send(s).await;
+                                let _ = x.forward(s).await;
+                            }
+                            Dis::Fa1(x) => {
+                                let _ = x.send(s).await;
+                                let _ = x.forward(s).await;
+                            }
+                            Dis::Turbine(x) => {
+                                let _ = x.send(s).await;
+                                let _ = x.forward(s).await;
+                            }
+                            Dis::Trivial(_) => {}
+                        }
+                    }
+                });
+            };
+            match kind {
+                "rotor" => {
+                    let old = StakeWeightedSampler::new(decoy).into_quorum_strategy(TOTAL_SHREDS);
+                    let d = Dis::Rotor(Rotor::new(n2, vei).with_sampler(old));
+                    warm_up(&d);
+                    let Dis::Rotor(r) = d else { unreachable!() };
+                    // the sampler `Rotor::new` uses
+                    Dis::Rotor(r.with_sampler(StakeWeightedSampler::new(validators).into_quorum_strategy(TOTAL_SHREDS)))
+                }
+                "rotor_fa1" => {
+                    let old = FaitAccompli1Sampler::new_with_partition_fallback(decoy, TOTAL_SHREDS as u64);
+                    let d = Dis::Fa1(Rotor::new_fa1(n2, vei).with_sampler(old));
+                    warm_up(&d);
+                    let Dis::Fa1(r) = d else { unreachable!() };
+                    // the sampler `Rotor::new_fa1` uses
+                    Dis::Fa1(r.with_sampler(FaitAccompli1Sampler::new_with_partition_fallback(
+                        validators,
+                        TOTAL_SHREDS as u64,
+                    )))
+                }
+                _ => {
+                    let other = if fanout == 1 { 2 } else { 1 };
+                    let d = Dis::Turbine(Turbine::new(n2, vei).with_fanout(other));
+                    warm_up(&d);
+                    let Dis::Turbine(t) = d else { unreachable!() };
+                    Dis::Turbine(t.with_fanout(fanout))
+                }
+            }
+        }));
+        net.drain();
         match r {
             Ok(dis) => Ok(Inst { net, dis }),
             Err(p) => Err(panic_msg(&p)),
@@ -459,8 +549,34 @@ fn scenario(
     // later construction
     let mut order: Vec<usize> = (0..n).collect();
     order.shuffle(rng);
+    // For a seeded half of the validators (at least one) the late copy is an instance with a history:
+    // it routed all shreds of this configuration under an outdated sampler / fanout (warm caches) and
+    // was then switched to the current one (`with_sampler` / `with_fanout`).
+    let mut switched: Vec<bool> = (0..n).map(|_| kind != "trivial" && rng.random_range(0..2u32) == 0).collect();
+    if kind != "trivial" && !switched.iter().any(|x| *x) {
+        switched[rng.random_range(0..n)] = true;
+    }
+    let warm: Vec<&Shred> = [(0usize, &sel_a), (1usize, &sel_b)]
+        .into_iter()
+        .flat_map(|(b, sel)| sel.iter().map(move |(sl, sh)| (b, *sl, *sh)))
+        .map(|(b, sl, sh)| blocks[b].shreds[sl][sh].as_shred())
+        .collect();
     for v in order {
-        construct(&mut sc, rec, 2, v);
+        if switched[v] {
+            match ep.construct_switched(kind, fanout, v, &warm) {
+                Ok(i) => {
+                    sc.inst[2][v] = Some(i);
+                    rec.emit(json!({"op": "note", "node": v, "inst": 2,
+                                    "what": "built with an outdated sampler/fanout, routed all shreds of this configuration, then switched with with_sampler/with_fanout"}));
+                }
+                Err(msg) => {
+                    rec.panics += 1;
+                    rec.emit(json!({"op": "panic", "what": "construct-switched", "node": v, "inst": 2, "msg": msg}));
+                }
+            }
+        } else {
+            construct(&mut sc, rec, 2, v);
+        }
     }
     if !usable(&sc, 3) {
         rec.emit(json!({"op": "endcfg"}));
